@@ -59,6 +59,8 @@ def budget(tier):
 def gen(rng, i, tier):
     if i % 6 == 5:      # targeted stream: state surviving between the runs of the iterated variant
         return mesgen.gen_stale(rng)
+    if i % 20 == 3:     # targeted stream: nothing to share + supported zero-cost projects
+        return mesgen.gen_boundary(rng, allow_irresolute=False)
     case = mesgen.gen_election(rng)
     case = mesgen.gen_config(rng, case, allow_irresolute=False)
     if case["solver"]:
@@ -162,6 +164,14 @@ def stats(cases, obs):
         d["by_sat"][c["sat"]] = d["by_sat"].get(c["sat"], 0) + 1
         d["multi"] += bool(c["multi"])
         d["stale_state_stream"] = d.get("stale_state_stream", 0) + (c.get("stream") == "stale")
+        d["boundary_stream"] = d.get("boundary_stream", 0) + (c.get("stream") == "boundary")
+        d["appscore_tie_stream"] = d.get("appscore_tie_stream", 0) + (c.get("stream") == "appscore")
+        d["zero_budget"] = d.get("zero_budget", 0) + (pb.F(c["budget"]) == 0)
+        d["negative_scores"] = d.get("negative_scores", 0) + any(
+            isinstance(b, dict) and any(pb.F(v) < 0 for v in b.values()) for b in c["ballots"])
+        d["big_integers"] = d.get("big_integers", 0) + any(abs(pb.F(x)) > 2 ** 53 for x in c["costs"])
+        f = c.get("init_form", "none")
+        d.setdefault("init_form", {})[f] = d.setdefault("init_form", {}).get(f, 0) + 1
         d["iterated"] += c["inc"] is not None
         if c["inc"] is not None and pb.F(o["final_budget"]) > pb.F(c["budget"]):
             d["iterated_inflated"] += 1
